@@ -114,7 +114,7 @@ func main() {
 			src := buf.Bytes()
 			if !bytes.Contains(src, []byte("//go:build")) {
 				src = append([]byte("//go:build go1.21\n\n"), src...)
-			} else {
+			} else if !bytes.Contains(src, []byte("//go:build go1.21\n")) {
 				die("%s: has a build constraint; not supported", rel)
 			}
 			dst := filepath.Join(*out, rel)
@@ -474,6 +474,9 @@ func (r *rewriter) selectBlock(n *ast.SelectStmt) ast.Stmt {
 	hd := "false"
 	if hasDefault {
 		hd = "true"
+	} else {
+		// keeps the statement terminating when every case of the select returns
+		clauses = append(clauses, &ast.CaseClause{List: nil, Body: []ast.Stmt{&ast.ExprStmt{X: &ast.CallExpr{Fun: ast.NewIdent("panic"), Args: []ast.Expr{&ast.BasicLit{Kind: token.STRING, Value: `"verifvs: select returned no case"`}}}}}})
 	}
 	args := append([]ast.Expr{r.site(n), ast.NewIdent(hd)}, descs...)
 	sw := &ast.SwitchStmt{Tag: &ast.CallExpr{Fun: r.vs("Select"), Args: args}, Body: &ast.BlockStmt{List: clauses}}
